@@ -125,7 +125,7 @@ class SimplicialComplex(Hypergraph):
     def add_edge(self, edge, idx=None, **attr):
         """Deprecated in SimplicialComplex. Use add_simplex instead"""
         warn("add_edge is deprecated in SimplicialComplex. Use add_simplex instead")
-        return self.add_simplex(edge, idx=None, **attr)
+        return self.add_simplex(edge, idx=idx, **attr)
 
     def add_edges_from(self, ebunch_to_add, max_order=None, **attr):
         """Deprecated in SimplicialComplex. Use add_simplices_from instead"""
@@ -133,7 +133,7 @@ class SimplicialComplex(Hypergraph):
             "add_edges_from is deprecated in SimplicialComplex. "
             "Use add_simplices_from instead"
         )
-        return self.add_simplices_from(ebunch_to_add, max_order=None, **attr)
+        return self.add_simplices_from(ebunch_to_add, max_order=max_order, **attr)
 
     def add_weighted_edges_from(
         self, ebunch_to_add, max_order=None, weight="weight", **attr
